@@ -85,6 +85,37 @@ class Folder:
         self._in_progress: set = set()
         self.steps = 0
         self.log: List[str] = []
+        self.intercepts: Dict[str, Any] = {}
+        self.trace: Optional[List[Tuple[str, ast.AST, Optional[ast.AST], bool]]] = None  # (function, test expr, enclosing If, outcome) when a rule probes
+        self._fn_stack: List[str] = []
+
+    def _note(self, test: ast.AST, t: Optional[bool], parent: Optional[ast.AST] = None) -> None:
+        if self.trace is not None and t is not None:
+            self.trace.append((" > ".join(self._fn_stack), test, parent, t))
+
+    def start_trace(self) -> None:
+        self.trace = []
+
+    def one_sided(self, ignore: Tuple[str, ...] = ()) -> List[Tuple[str, ast.AST]]:
+        """tests decided the same way on every probe of the trace whose other outcome is not a refusal: the probes do not show what the
+        code does on that outcome, so a decision by folding would be a sample, not a proof"""
+        tr, self.trace = self.trace or [], None
+        seen: Dict[int, Tuple[str, ast.AST, Optional[ast.AST], set]] = {}
+        for fn, test, parent, t in tr:
+            seen.setdefault(id(test), (fn, test, parent, set()))[3].add(t)
+
+        def refuses(arm: List[ast.stmt]) -> bool:
+            return bool(arm) and isinstance(arm[-1], ast.Raise)
+        out = []
+        for fn, test, parent, outs in seen.values():
+            if len(outs) == 2 or any(fr.endswith(i) for fr in fn.split(" > ") for i in ignore):
+                continue
+            if isinstance(parent, ast.If) and (refuses(parent.body) or refuses(parent.orelse)):
+                continue
+            if not any(isinstance(x, (ast.Name, ast.Attribute, ast.Call, ast.Subscript)) for x in ast.walk(test)):
+                continue  # a test over constants does not depend on the input
+            out.append((fn, test))
+        return out
 
     # ------------------------------------------------------------------ module level values
     def module_value(self, m: Module, name: str) -> Any:
@@ -240,6 +271,7 @@ class Folder:
             for v in e.values:
                 last = self.expr(v, env, m)
                 t = self.truth(last)
+                self._note(v, t, env.get("__if__"))
                 if t is None:
                     return Unknown("boolop")
                 if isinstance(e.op, ast.And) and not t:
@@ -249,6 +281,7 @@ class Folder:
             return last
         if isinstance(e, ast.IfExp):
             t = self.truth(self.expr(e.test, env, m))
+            self._note(e.test, t)
             if t is None:
                 return Unknown("ifexp")
             return self.expr(e.body if t else e.orelse, env, m)
@@ -328,6 +361,7 @@ class Folder:
             keep = True
             for cond in g.ifs:
                 t = self.truth(self.expr(cond, env2, m))
+                self._note(cond, t)
                 if t is None:
                     return Unknown("comprehension cond")
                 keep = keep and t
@@ -585,11 +619,18 @@ class Folder:
         fn = f.fn
         if isinstance(fn.node, ast.Lambda):
             return Unknown("lambda")
-        hook = getattr(self, "intercepts", {}).get(fn.short)
+        hook = self.intercepts.get(fn.short)
         if hook is not None:  # a rule asks for the arguments a callee is handed instead of its result
             b = self._bind(fn, f.bound, args, kwargs, fn.module)
             return hook(b)
         m = fn.module
+        self._fn_stack.append(fn.short)
+        try:
+            return self._call_function_body(f, fn, m, args, kwargs)
+        finally:
+            self._fn_stack.pop()
+
+    def _call_function_body(self, f: FuncVal, fn, m, args: List[Any], kwargs: Dict[str, Any]) -> Any:
         env = dict(f.env or {})
         env.update(self._bind(fn, f.bound, args, kwargs, m))
         if fn.self_name is not None and f.bound is not None:
@@ -643,7 +684,12 @@ class Folder:
             self._assign(st.target, nv, env, m)
             return
         if isinstance(st, ast.If):
-            t = self.truth(self.expr(st.test, env, m))
+            env["__if__"] = st
+            try:
+                t = self.truth(self.expr(st.test, env, m))
+            finally:
+                env.pop("__if__", None)
+            self._note(st.test, t, st)
             if t is None:
                 # undecidable: execute both arms on copies and poison what they assign
                 self._poison(st, env, m)
